@@ -73,6 +73,11 @@ def mc_configs(tier):
          ["Connect", "DropPlain", "DropLoaded", "BindOk", "BindInUse", "SendRemote", "SendSelf", "SendLoop",
           "SendRefused", "DeliverQueued", "DeliverPeer", "DeliverKind", "DeliverUnbound", "DeliverSilent",
           "LoDeliverQueued", "LoDeliverDropped", "LoDeliverSilent", "RecvWhole"]),
+        # membership and peer filter changing independently around one multicast / unicast datagram
+        ("mc_mixed", base_consts(DstPorts={1}, DstKinds={"mc", "host"}, Ops={"join", "leave", "connect", "send", "recv"},
+                                 Bufs={8}, MaxSend=1, MaxSock=2, MaxCtl=4),
+         ["Join", "LeaveOk", "Connect", "SendMcNet", "SendRemote", "DeliverQueued", "DeliverPeer", "DeliverSilent",
+          "RecvWhole"]),
     ]
     if not q:
         cfgs += [
@@ -269,7 +274,7 @@ def run(pid, tier, seed, replay=None):
             spath = os.path.join(w, f"{name}.v{6 if v6 else 4}.summary.json")
             # every `step`-th behaviour is also run to the end (everything handed over, sockets drained) and
             # its complete trace is judged by the PropSpec, divergent or not
-            step = max(1, len(behs) // (150 if tier == "quick" else 600)) if not v6 else 0
+            step = max(1, len(behs) // (1500 if tier == "quick" else 8000)) if not v6 else 0
             out = vlib.run_driver("msgudp", ["replay", f"in={bpath}", f"out={spath}", f"traces={w}", f"v6={v6}",
                                              f"force={step}"] + [f"{k}={v}" for k, v in geo.items()])
             s = json.load(open(spath))
